@@ -948,6 +948,44 @@ func (c *Check) mergedIffNoError() {
 	}
 	if n == 0 {
 		c.undecided("C16-R5", "merged-iff-no-error", p.relFile(f.Pos()), "the append of a source's profile was not found in concurrentGrab")
+		return
+	}
+	// every source is looked at: the collecting loop is left only when the sources are
+	// exhausted (a failed source is reported and skipped, it does not end the collection)
+	for _, hs := range harvestSites(f) {
+		if !isFieldLoad(hs.val, "driver.profileSource", "p") {
+			continue
+		}
+		hdr := loopHeaderAround(hs.ins.Block())
+		if hdr == nil {
+			c.undecided("C16-R5", "collect-visits-all", p.relFile(hs.ins.Pos()), "the append of a source's profile is not inside a loop")
+			continue
+		}
+		loop := naturalLoop(hdr)
+		var exit *ssa.BasicBlock
+		for blk := range loop {
+			if blk == hdr {
+				continue
+			}
+			for _, sc := range blk.Succs {
+				if !loop[sc] && exit == nil {
+					if _, isPanic := sc.Instrs[len(sc.Instrs)-1].(*ssa.Panic); !isPanic {
+						exit = blk
+					}
+				}
+			}
+		}
+		if exit != nil {
+			pos := hs.ins.Pos()
+			for _, ins := range exit.Instrs {
+				if ins.Pos() != token.NoPos {
+					pos = ins.Pos()
+				}
+			}
+			c.bad("C16-R5", "collect-visits-all", p.relFile(pos), "the loop that collects the fetched profiles can be left before the last source was looked at (a break or return in its body): every source listed after the first failed one is fetched and then silently left out of the merge")
+		} else {
+			c.ok("C16-R5", "collect-visits-all", p.relFile(hs.ins.Pos()), "the collecting loop looks at every source", "the loop is left only through its header (sources exhausted)")
+		}
 	}
 }
 
